@@ -88,6 +88,8 @@ C = [
   [("pkg/vm/stackitem/serialization.go", "if size < 0 || size > r.limit {", "if size > r.limit {"), ("pkg/vm/stackitem/serialization.go", "if size < 0 || size > r.limit/2 {", "if size > r.limit/2 {")]),
  ("C17-merkleblock-count-signed", "C17", "signed-count", "MerkleBlock transaction count converted to int before the limit test (the repaired defect)",
   [("pkg/network/payload/merkleblock.go", "\tcount := br.ReadVarUint()\n\tif count > block.MaxTransactionsPerBlock {", "\ttxCount := int(br.ReadVarUint())\n\tif txCount > block.MaxTransactionsPerBlock {"), ("pkg/network/payload/merkleblock.go", "\ttxCount := int(count)\n", "")]),
+ ("C20-restart-panics-on-equal-siblings", "C20", "traverse-callback", "the pool-rebuilding Traverse callback panics on the second occurrence of a hash (the repaired defect)",
+  [("pkg/core/statesync/module.go", "\t\t\t\t\tif _, ok = seen[n.Hash()]; ok {\n\t\t\t\t\t\t// Equal subtrees have equal hashes: the node was already\n\t\t\t\t\t\t// processed with all of its paths when it was met first.\n\t\t\t\t\t\treturn false\n\t\t\t\t\t}\n", "")]),
 ]
 
 root = "/verif/controls"
